@@ -18,7 +18,8 @@ Mirrors (tunnox-core, repaired tree)
 
 The shared store is the sequential map with expiry of `Spec/TTLStore` (same `live`/`deadline` semantics,
 lemmas `live_eq`, `expiry_eq_deadline`), keyed by the two key families of `connstate` instead of raw
-strings.  One event = one handler call (atomic); the clock is explicit (milliseconds).
+strings.  One event = one handler call (atomic); the clock is explicit (milliseconds) and shared: storage deadlines
+and the records' `ExpiresAt` are read off the same clock.
 
 A connection id is the triple (node it was accepted on, client that uses it, serial): connection ids are
 unique in the cluster, a connection lives on one node and is used by one client (C07 covers re-authentication
@@ -48,6 +49,7 @@ structure Info where
   clientID : Nat     -- ClientID
   nodeID : Nat       -- NodeID
   control : Bool     -- ConnType == "control"
+  expiresAt : Nat    -- ExpiresAt: the application-level deadline `GetConnectionState` re-checks
   deriving DecidableEq, Repr
 
 inductive Val where
@@ -123,14 +125,16 @@ inductive GS where
   | badType
   deriving DecidableEq, Repr
 
-/-- `GetConnectionState`.  The `ExpiresAt` re-check is subsumed by the store's own deadline (both are
-`now + ttl`, `ExpiresAt` read first) and is not modelled. -/
+/-- `GetConnectionState`: storage visibility, decode by shape, then the `ExpiresAt` re-check.  A record past its
+`ExpiresAt` is reported as expired ("not connected", rendered like not-found) and deleted; the delete is not
+modelled, because every reader of the record goes through this check and treats such a record as absent, and every
+writer overwrites the key. -/
 def getConnectionState (P : Params) (now : Nat) (s : Store) (c : Conn) : GS :=
   match find now s (.conn c) with
   | none => .notFound
   | some e =>
     match e.val with
-    | .info i => if decodable P then .ok i else .badType
+    | .info i => if decodable P then (if now ≤ i.expiresAt then .ok i else .notFound) else .badType
     | .id _ => .badType
 
 /-- `clientIndexPointsTo(clientKey, connectionID)`. -/
@@ -142,12 +146,14 @@ def clientIndexPointsTo (now : Nat) (s : Store) (x : Nat) (c : Conn) : Bool :=
     | .id c' => c' == c
     | .info _ => false
 
-/-- `RegisterConnection` on the store of node `node`. -/
+/-- `RegisterConnection` on the store of node `node`: `NodeID`, `CreatedAt = now`, `ExpiresAt = now + ttl` are
+stamped on every registration — also when the same connection registers again. -/
 def registerConnection (P : Params) (node now : Nat) (s : Store) (st : Info) : Store :=
   if st.control && decide (st.clientID > 0) then
-    set now P.ttl (set now P.ttl s (.conn st.conn) (.info { st with nodeID := node })) (.client st.clientID) (.id st.conn)
+    set now P.ttl (set now P.ttl s (.conn st.conn) (.info { st with nodeID := node, expiresAt := now + P.ttl }))
+      (.client st.clientID) (.id st.conn)
   else
-    set now P.ttl s (.conn st.conn) (.info { st with nodeID := node })
+    set now P.ttl s (.conn st.conn) (.info { st with nodeID := node, expiresAt := now + P.ttl })
 
 /-- The index part of `UnregisterConnection`. -/
 def unregisterIndex (P : Params) (now : Nat) (s : Store) (c : Conn) : Store :=
@@ -191,8 +197,8 @@ def refreshConnection (P : Params) (now : Nat) (s : Store) (c : Conn) : Store :=
   match getConnectionState P now s c with
   | .ok st =>
     if st.control && decide (st.clientID > 0) && clientIndexPointsTo now s st.clientID c then
-      set now P.ttl (set now P.ttl s (.conn c) (.info st)) (.client st.clientID) (.id c)
-    else set now P.ttl s (.conn c) (.info st)
+      set now P.ttl (set now P.ttl s (.conn c) (.info { st with expiresAt := now + P.ttl })) (.client st.clientID) (.id c)
+    else set now P.ttl s (.conn c) (.info { st with expiresAt := now + P.ttl })
   | _ => s
 
 /-! ## One node's SessionManager -/
@@ -285,9 +291,9 @@ def hsNode (n : NodeSt) (c : Conn) : NodeSt :=
 def hsStore (P : Params) (now : Nat) (s : Store) (n : NodeSt) (c : Conn) : Store :=
   match FMap.lookup n.byClient c.client with
   | some o =>
-    if o ≠ c then registerConnection P c.node now (unregisterConnection P now s o) ⟨c, c.client, c.node, true⟩
-    else registerConnection P c.node now s ⟨c, c.client, c.node, true⟩
-  | none => registerConnection P c.node now s ⟨c, c.client, c.node, true⟩
+    if o ≠ c then registerConnection P c.node now (unregisterConnection P now s o) ⟨c, c.client, c.node, true, 0⟩
+    else registerConnection P c.node now s ⟨c, c.client, c.node, true, 0⟩
+  | none => registerConnection P c.node now s ⟨c, c.client, c.node, true, 0⟩
 
 /-- `handleHandshake`. -/
 def handleHandshake (P : Params) (st : St) (c : Conn) (control ok : Bool) : St :=
@@ -395,7 +401,10 @@ def stepOk (st : St) : Ev → Bool
   -- the lookup in flight answers a connection (no error) iff the record of the connection it read is visible
   | .lookEnd j x =>
     match FMap.lookup st.pending (j, x) with
-    | some (some c) => (find st.now st.store (.conn c)).isSome
+    | some (some c) =>
+      match find st.now st.store (.conn c) with
+      | some e => (match e.val with | .info i => decide (st.now ≤ i.expiresAt) | .id _ => false)
+      | none => false
     | _ => false
   | _ => true
 
